@@ -47,7 +47,7 @@ def _cases(draw):
                     if g.p("_", 0.6):
                         r_[cname] = "v"
     edge = None
-    if g.p("_", 0.08):
+    if g.p("_", 0.14):
         # edge probes: inputs a user can type that XML cannot carry as they are; the outcome must be a well-formed result or a rejection
         qs = [n for n, _ in model.walk(form["nodes"]) if n["k"] == "q" and n["c"].get("type", "").split(" ")[0] in ("text", "integer", "note", "select_one")]
         kind = g.pick(["char", "header", "setting", "namespaces", "name", "instance-xmlns", "root-name"])
@@ -85,7 +85,8 @@ def _cases(draw):
                 form.setdefault("settings", {})["namespaces"] = f'{pre}="http://example.com/{pre}"'
             edge = "root-name"
         elif kind == "header" and qs:
-            g.pick(qs)["c"][g.pick(EDGE_HEADERS)] = g.pick(["v", "my tag", "1st", "a<b", "select1", "http://www.w3.org/XML/1998/namespace", "http://x.example/100%"])
+            # (attribute columns named like the keys that hold a control's element name or generated paths: a third of the header probes)
+            g.pick(qs)["c"][g.pick(["body::tag", "body::ref", "bind::nodeset", "body::nodeset"]) if g.p("_", 0.3) else g.pick(EDGE_HEADERS)] = g.pick(["v", "my tag", "1st", "a<b", "select1", "http://www.w3.org/XML/1998/namespace", "http://x.example/100%"])
             edge = "attribute-header"
         else:
             form.setdefault("settings", {})[g.pick(EDGE_SETTINGS)] = "v"
